@@ -17,7 +17,7 @@ from common import LEAN, Driver, Report, check_proofs, proof_coverage, rng
 from gen import Cfg, G, required_version
 from pipeline import Case, exec_diff, replay_case
 
-PROOF_MODULES = ["PyTealV.Proofs.Sim", "PyTealV.Proofs.Shape"]
+PROOF_MODULES = ["PyTealV.Proofs.Sim", "PyTealV.Proofs.Shape", "PyTealV.Proofs.C01"]
 TRUSTED = [
     "Lean 4 kernel; axioms propext, Classical.choice, Quot.sound only",
     "AVM spec lean/PyTealV/Avm (TEAL grammar, opcode semantics execPrim, machine step)",
@@ -74,6 +74,8 @@ def run(tier: str) -> int:
             verdict = case.validate()
             ok = verdict.startswith("valid")
             stats["validate:" + verdict.split(" ")[0]] += 1
+            if ok:
+                stats["theorem gen_correct applies (fragment=true)" if "fragment=true" in verdict else "outside proven fragment (validated + executed only)"] += 1
             bad = exec_diff(case, r, cfg["nctx"], stats)
             if ok and bad is None:
                 validated += 1
